@@ -1,6 +1,9 @@
 //! C10 (connection part): handler receives exactly the bytes sent for every fragmentation and reader pace.
 use crate::check::Check;
+use crate::inbound::In;
+use crate::simnet::Violation;
 
 pub fn run_conn_part(_ck: &mut Check, _full: bool) {
     // filled in below (Engine A)
 }
+pub fn final_check(_s: &In) -> Result<(), Violation> { Ok(()) }
